@@ -213,6 +213,17 @@ def check():
         c, m = gen_case(rng, i)
         cases.append(c)
         meta.append(m)
+    # long directive arguments with multi-byte characters at every offset (anything that cuts or measures text by bytes)
+    for k in range(0, 140 if quick else 400):
+        for body in ("-- TXTPP#write ", "-TXTPP#run echo ", "TXTPP#include ", "TXTPP#tag ", "// TXTPP#temp "):
+            if quick and (k + len(body)) % 3:
+                continue
+            line = body + "a" * k + rng.choice(["中文" * 30, "😀é" * 30, "é" * 60, "—" * 40])
+            src = (line + "\nnext line\n").encode()
+            mode = rng.choice(["build", "verify", "clean", "needed"])
+            cases.append(dict(id=f"u{k}", template="ppenv", report="changed", files=[dict(path="b/s.txt.txtpp", b64=b64(src))],
+                              steps=[dict(run=dict(base="b", inputs=["s.txt.txtpp"], mode=mode, threads=2))]))
+            meta.append(dict(mode=mode, threads=2, inputs=["s.txt.txtpp"], shell="", cli=False, src=src[:200]))
     # option values on a plain project, all modes, thread counts 0..16
     for t in range(0, 17):
         for mode in ("build", "needed", "verify", "clean"):
